@@ -30,3 +30,13 @@ Print Assumptions C16_folders_distinct.
 Theorem C16_last_day_skipped_refuted : exists s e t, s <= t <= e /\ legacy_listed s e t = false.
 Proof. exact legacy_last_day_skipped. Qed.
 Print Assumptions C16_last_day_skipped_refuted.
+
+(** the premises of this file are linear inequalities; an instance that straddles two midnights, with the window
+    ends inside a day: the three day folders are enumerated, instants one microsecond outside are not listed (wp-audit) *)
+Example C16_example :
+  let s := 23 * h in let e := 2 * D + h in
+  s <= D + 5 <= e /\ days_enumerated s e = [0; 1; 2] /\
+  listed s e s = true /\ listed s e (D + 5) = true /\ listed s e e = true /\
+  listed s e (s - 1) = false /\ listed s e (e + 1) = false /\
+  listed_opt s None (e + h) e = true /\ e <= e + h /\ legacy_days_enumerated s e = [0; 1].
+Proof. vm_compute. repeat split; try reflexivity; discriminate. Qed.
